@@ -354,6 +354,62 @@ def m_lock_ctor(I, st, fr, n, this, args, an):
     return [(st, VOID)]
 
 
+# ---- std::unique_ptr: one owned pointer in the pseudo-field $ptr
+def _uptr_loc(this):
+    if this is None:
+        return None
+    if this[0] == 'p':
+        return (this[1], this[2] + ('$ptr',))
+    if this[0] == 'obj':
+        return (this[1][0], this[1][1] + ('$ptr',))
+    return None
+
+
+def m_uptr_ctor(I, st, fr, n, this, args, an):
+    l = _uptr_loc(this)
+    v = args[0] if args else NULL
+    if v[0] in ('obj',) or (v[0] == 'p' and (v[1], v[2] + ('$ptr',)) in st.mem):
+        src = _uptr_loc(v)                      # move construction
+        held = st.mem.get(src, TOP)
+        st.mem[src] = NULL
+        v = held
+    if l is not None:
+        st.mem[l] = v
+    return [(st, VOID)]
+
+
+def m_uptr_get(I, st, fr, n, this, args, an):
+    l = _uptr_loc(this)
+    return [(st, st.mem.get(l, ('ptop', 'unique_ptr', True)) if l else ('ptop', 'unique_ptr', True))]
+
+
+def m_uptr_release(I, st, fr, n, this, args, an):
+    l = _uptr_loc(this)
+    v = st.mem.get(l, ('ptop', 'unique_ptr', True)) if l else ('ptop', 'unique_ptr', True)
+    if l is not None:
+        st.mem[l] = NULL
+    return [(st, v)]
+
+
+def m_uptr_drop(I, st, fr, n, this, args, an):
+    """destructor and reset(): the held object is deleted (its class destructor is not run here: parameter packs are plain data)"""
+    l = _uptr_loc(this)
+    v = st.mem.get(l) if l else None
+    if v is not None and v != NULL:
+        I.emit('delete', st, node=n, val=v, isarr=False)
+    if l is not None:
+        st.mem[l] = args[0] if args else NULL
+    return [(st, VOID)]
+
+
+def m_uptr_bool(I, st, fr, n, this, args, an):
+    l = _uptr_loc(this)
+    v = st.mem.get(l) if l else None
+    if v is None or v[0] == 'ptop':
+        return [(st, R(0, 1))]
+    return [(st, C(0 if v == NULL else 1))]
+
+
 def m_lock_unlock(I, st, fr, n, this, args, an):
     tl = (this[1], this[2]) if this and this[0] == 'p' else None
     if tl is None:
@@ -521,6 +577,9 @@ STD_MODELS = {
     'exit': m_exit, 'std::exit': m_exit, 'abort': m_exit,
     'rand': m_top, 'srand': m_void, 'time': m_top, 'atoi': m_atoi, 'std::atoi': m_atoi,
     'getopt_long': m_getopt, 'stat': m_top,
+    'std::unique_ptr::unique_ptr': m_uptr_ctor, 'std::unique_ptr::get': m_uptr_get, 'std::unique_ptr::operator->': m_uptr_get,
+    'std::unique_ptr::release': m_uptr_release, 'std::unique_ptr::reset': m_uptr_drop, '~std::unique_ptr': m_uptr_drop,
+    'std::unique_ptr::~unique_ptr': m_uptr_drop, 'std::unique_ptr::operator bool': m_uptr_bool,
     'std::unique_lock::unique_lock': m_lock_ctor, 'std::lock_guard::lock_guard': m_lock_ctor,
     'std::scoped_lock::scoped_lock': m_lock_ctor,
     'std::unique_lock::unlock': m_lock_unlock, 'std::unique_lock::lock': m_lock_lock,
